@@ -1,5 +1,6 @@
 """Driver: applies ops to the real PyCdlib object(s) under the installed seams
 and keeps the reference model in step."""
+import zlib
 import importlib
 import io
 import os
@@ -366,6 +367,10 @@ class Driver:
             kw['udf_path'] = op['udf']
         if op.get('mode') is not None:
             kw['file_mode'] = op['mode']
+        if list(kw) == ['joliet_path'] and zlib.crc32(kw['joliet_path'].encode('utf-8')) & 1:
+            # a fixed half of the Joliet-only calls goes through the deprecated alias
+            self.iso.add_joliet_directory(kw['joliet_path'])
+            return
         self.iso.add_directory(**kw)
 
     @staticmethod
@@ -380,6 +385,9 @@ class Driver:
         for ns in M.NSS:
             if op.get(ns):
                 kw.update(self._pathkw(ns, op[ns]))
+        if list(kw) == ['joliet_path'] and zlib.crc32(kw['joliet_path'].encode('utf-8')) & 1:
+            self.iso.rm_joliet_directory(kw['joliet_path'])
+            return
         self.iso.rm_directory(**kw)
 
     def do_add_link(self, op):
